@@ -10,6 +10,13 @@ Base == << << M(<<97>>, <<11,12,13,14,15>>), M(<<98,98>>, <<21,22>>) >>,
 CallsDir(n, up) == << [call |-> "GetCount", i |-> 0] >> \o Flatten([j \in 1..(n + 2) |-> LET i == IF up THEN j - 1 ELSE n + 2 - j IN << [call |-> "GetName", i |-> i], [call |-> "GetSize", i |-> i],
                  [call |-> "OpenStream", i |-> i], [call |-> "GetName", i |-> i], [call |-> "Extract", i |-> i], [call |-> "OpenStream", i |-> i] >>])
 Emit(id, img, n) == \A up \in BOOLEAN : PrintT("S|" \o ToJson([id |-> <<id, up>>, steps |-> << [op |-> "robust_vol", image |-> img, calls |-> CallsDir(n, up)] >>]))
+\* an archive from the independent encoder whose last member is LZH-compressed: truncations inside its block and corruptions of its lengths
+LZ == INSTANCE LzhEnc WITH NSym <- 314, MaxCount <- 65535
+Lit8(c) == [k |-> "lit", c |-> c]
+Mt(l, d) == [k |-> "match", len |-> l, dist |-> d]
+LzMember == LET e == LZ!Encode(<< Lit8(65), Mt(5, 0), Lit8(66), Mt(60, 4095), Lit8(0), Mt(3, 1), Lit8(200), Mt(17, 3) >>) IN
+            [name |-> <<122>>, size |-> Len(e.payload), kind |-> LZH, stored |-> e.bytes]
+LzBase == << [name |-> <<97>>, size |-> 5, kind |-> Uncompressed, stored |-> <<11,12,13,14,15>>], LzMember >>
 Init == done = FALSE
 Next == /\ ~done /\ done' = TRUE
         /\ \A bi \in 1..Len(Base) :
@@ -27,6 +34,13 @@ Next == /\ ~done /\ done' = TRUE
                   IN Emit(<<"index-slack", bi, extra>>, img2, Len(ms))
              \* coordinated: more valid index entries than names (actual name-table length cut to the first name)
              /\ Emit(<<"fewer-names", bi>>, SetBytes(img, 24, Small32(Len(ms[1].name) + 1)), Len(ms))
+        /\ LET img == RefEncode(LzBase, 0, 0)  flen == Len(img)  blk == RBlockOff(LzBase, 0, 0, 2)  ent == 24 + PaddedNames(LzBase) + 8 + 14 IN
+             /\ Emit(<<"lzh-base">>, img, 2)
+             /\ \A k \in 0..(flen - 1) : Emit(<<"lzh-prefix", k>>, Trunc(img, k), 2)
+             /\ \A v \in SectionBoundary(Len(LzMember.stored), flen) : Emit(<<"lzh-field", "block.len", v>>, SetBytes(img, blk + 4, v), 2)
+             /\ \A v \in Boundary(LzMember.size, flen) : Emit(<<"lzh-field", "entry.size", v>>, SetBytes(img, ent + 8, v), 2)
+             /\ \A v \in Boundary(blk, flen) : Emit(<<"lzh-field", "entry.block", v>>, SetBytes(img, ent + 4, v), 2)
+             /\ \A r \in 1..(NRand \div 4) : Emit(<<"lzh-random", Seed, r>>, Mutated(img, Seed * 607 + r), 2)
         /\ \A r \in 1..NRand : LET bi == 1 + (r % Len(Base))  img == FlatSegs(Layout(Base[bi])) IN
              Emit(<<"random", Seed, r>>, Mutated(img, Seed * 601 + r), Len(Base[bi]))
 Spec == Init /\ [][Next]_done
